@@ -601,3 +601,6 @@ PROPS["C13"]["rule"] += (" One case in six continues with a 'self-binding' seque
                          "a pattern that binds the variable of the same name to it, and a later conjunct or rule condition that uses "
                          "the variable again (each pattern holds the variable once; repeated variables in one pattern over such data "
                          "are the excluded known finding).")
+PROPS["C16"]["rule"] += (" crolt part: a third of the jobs are slow (their HTTP request, answered by a fake transport without network, "
+                         "takes 200 ms of virtual time inside the firing loop's transaction), and Delete requests also arrive while a "
+                         "pass of the firing loop is running.")
